@@ -75,6 +75,7 @@ type histRun struct {
 	sig    string
 	strict []bool
 	own    func(oracle string) bool
+	resp   map[*CA]*Responder
 }
 
 func (r *histRun) observe(n *hNode) observation {
@@ -273,8 +274,15 @@ func runCRLHistory(h *Harness, cfg histCfg) {
 	src2 := Pick(tp, "cdp", "url", "file")
 	l2 := mk("L2", "http://crl2.sim/b.crl", w.B, 1, src2)
 	var l3 *hLoc
-	if tp.Chance(1, 3) {
+	if tp.Chance(1, 2) {
 		l3 = mk("L3", "https://crl3.sim/a2.crl", w.A, 2, Pick(tp, "cdp", "url"))
+	}
+	// OCSP side ("whatever OCSP answered"): one responder per issuer; its behaviour is redrawn before every handshake
+	var respA, respB *Responder
+	if cfg.withOCSP && mode != "crl_only" {
+		respA = w.NewResponder("http://ocsp.sim/a", w.A)
+		respB = w.NewResponder("http://ocsp.sim/b", w.B)
+		r.resp = map[*CA]*Responder{w.A: respA, w.B: respB}
 	}
 	// twin serials: what L1 lists under issuer A is presented under issuer B and vice versa
 	sc["l2src"] = src2
@@ -480,7 +488,7 @@ func (r *histRun) restart(i int) bool {
 func (r *histRun) handshake(n *hNode, l *hLoc, strict bool, mode string) {
 	tp := r.h.Tape
 	k := tp.Int(len(l.OnlyV))
-	class := Pick(tp, "only", "common", "never", "twin")
+	class := Pick(tp, "only", "common", "never", "twin", "cross")
 	cdpKind := Pick(tp, "loc", "loc", "loc", "none", "ldap")
 	if l.source != "cdp" {
 		cdpKind = Pick(tp, "none", "none", "ldap")
@@ -499,6 +507,13 @@ func (r *histRun) handshakeWith(n *hNode, l *hLoc, class string, k int, cdpKind 
 		serial = l.Common
 	case "never":
 		serial = l.Never[tp.Int(len(l.Never))]
+	case "cross": // a serial listed by ANOTHER location of the same issuer, presented with this location's distribution points
+		serial = l.Never[0]
+		for _, o := range r.locs {
+			if o != l && o.Issuer == l.Issuer {
+				serial = o.Common
+			}
+		}
 	case "twin": // a serial listed by this location, presented under the *other* issuer
 		serial = l.Common
 		if issuer == r.w.A {
@@ -527,13 +542,21 @@ func (r *histRun) handshakeWith(n *hNode, l *hLoc, class string, k int, cdpKind 
 		cdp, cdpLoc = []string{}, nil
 		cdpKind = "none"
 	}
-	cert := issuer.Issue(EEOpts{Serial: serial, CDP: cdp})
+	var aia []string
+	ocspSaid := "no-aia"
+	if rsp := r.resp[issuer]; rsp != nil && tp.Chance(2, 3) {
+		aia = []string{rsp.URL}
+		ocspSaid = Pick(tp, rGood, rGood, rUnknown, oDown, oGarbage, oHTTP500, rRevoked)
+		setBehaviour(rsp, ocspSaid)
+	}
+	cert := issuer.Issue(EEOpts{Serial: serial, CDP: cdp, OCSP: aia})
 	before := r.observe(n)
 	hs := h.Handshake(n.Node, class, r.w.ChainFor(cert, issuer))
 	h.Quiesce()
 	after := r.observe(n)
 	verdict := errStr(hs.Err)
-	r.events = append(r.events, fmt.Sprintf("hs(%s,%s/%s,cdp=%s)=%s", n.Name, l.Name, class, cdpKind, verdict))
+	r.events = append(r.events, fmt.Sprintf("hs(%s,%s/%s,cdp=%s,ocsp=%s)=%s", n.Name, l.Name, class, cdpKind, ocspSaid, verdict))
+	ocspRevoked := ocspSaid == rRevoked
 	h.R.Checks++
 	lb, la := r.listed(before, issuer, serial), r.listed(after, issuer, serial)
 	crlOn := mode != "ocsp_only" && mode != "disabled"
@@ -554,7 +577,7 @@ func (r *histRun) handshakeWith(n *hNode, l *hLoc, class string, k int, cdpKind 
 		}
 	}
 	// C11: "revoked" needs a listing in something observed in force
-	if isRevokedErr(hs.Err) && !lb && !la {
+	if isRevokedErr(hs.Err) && !lb && !la && !ocspRevoked {
 		r.viol("C11.revoked-unlisted", "revoked-unlisted:"+class, "node %s reported %s serial %s revoked, but no version observed in force (before %v, after %v) lists it", n.Name, issuer.Name, serial.Text(16), before, after)
 	}
 	// C10
